@@ -46,7 +46,7 @@ theorem renderN_elem (tag : Name) (body : List Node) :
       | none =>
         (renderL inl files J rng body st).bind fun r => .ok (.start tag :: r.1 ++ [.stop tag], r.2)
       | some (idx, mb) =>
-        (renderL inl files J ⟨rng.lo, some (idx + 1)⟩ body st).bind fun r => J ⟨idx + 1, none⟩ mb r.2 := rfl
+        (renderL inl files J ⟨rng.lo, some (idx + 1), false⟩ body st).bind fun r => J ⟨idx + 1, none, false⟩ mb r.2 := rfl
 
 theorem renderN_cond (c : Cond) (body : List Node) :
     renderN inl files J rng (.cond c body) st =
@@ -79,8 +79,8 @@ theorem renderN_include (href : Href) (cls : Kind) (hasFb : Bool) (fb : List Nod
         | none => .err .unmodelled
         | some name =>
           match loadT inl files name cls st with
-          | .ok (body, st1) => J .full body st1
-          | .err .notFound => if hasFb then renderL inl files J .full fb st else .err .notFound
+          | .ok (body, st1) => J (.ofKind cls) body st1
+          | .err .notFound => if hasFb then renderL inl files J rng.fresh fb st else .err .notFound
           | .err e => .err e
           | .fuel => .fuel := rfl
 
@@ -299,10 +299,48 @@ def LoadOK (T : List Name) (files : Files) : Prop :=
     | .err e => loadInl files name cls c = .err e
     | .fuel => False
 
+/-- how the match windows of the two runs are coupled.  Either both runs are in the same markup
+pipeline with the same window, which is the full one outside zones; or the stream is textual
+(nothing in it consults the window): then the run-time run may be in a text template's pipeline
+while the inline run, the text template having been inlined, still is in the includer's -/
+def Coup (z : Bool) (rngR rngI : Rng) (raw : List Node) : Prop :=
+  (rngR = rngI ∧ rngR.nomt = false ∧ (z = false → rngR = .full)) ∨ (z = false ∧ textualL raw = true)
+
+/-- text templates are textual (from `inH`) -/
+def TextOK (files : Files) : Prop :=
+  ∀ name body, files.find name = some ⟨.text, some body⟩ → textualL body = true
+
 /-- entering a stream at lower fuel preserves the relation (induction hypothesis on fuel) -/
 def JRel (T : List Name) (files : Files) (J J' : RJ) : Prop :=
-  ∀ z rng raw prep s s', PrepL T files z raw prep → (z = false → rng = .full) → StRel T files s s' →
-    RRel T files (J rng raw s) (J' rng prep s')
+  ∀ z rngR rngI raw prep s s', PrepL T files z raw prep → Coup z rngR rngI raw → StRel T files s s' →
+    RRel T files (J rngR raw s) (J' rngI prep s')
+
+theorem Coup.full {raw : List Node} : Coup false .full .full raw := .inl ⟨rfl, rfl, fun _ => rfl⟩
+
+/-- the windows after entering a target of class `cls`, whose body is textual when `cls` is text -/
+theorem Coup.ofKind {cls : Kind} {rngI : Rng} {body : List Node}
+    (ht : cls = .text → textualL body = true) (hm : cls = .markup → rngI = .full) :
+    Coup false (.ofKind cls) rngI body := by
+  cases cls with
+  | markup => rw [hm rfl]; exact .full
+  | text => exact .inr ⟨rfl, ht rfl⟩
+
+theorem loadRaw_text {files : Files} (htx : TextOK files) {name : Name} {cls : Kind} {body : List Node}
+    (h : loadRaw files name cls = .ok body) : cls = .text → textualL body = true := by
+  intro hc
+  subst hc
+  simp only [loadRaw] at h
+  cases hf : files.find name with
+  | none => simp [hf] at h
+  | some f =>
+    obtain ⟨fk, fb⟩ := f
+    simp only [hf] at h
+    by_cases hk : fk = .text
+    · subst hk
+      cases fb with
+      | none => simp at h
+      | some b => simp at h; subst h; exact htx name b hf
+    · simp [hk] at h
 
 theorem seq_rel {T files} {x x' : R} {k k' : St → R}
     (hx : RRel T files x x') (hk : ∀ s s', StRel T files s s' → RRel T files (k s) (k' s')) :
@@ -314,20 +352,50 @@ theorem seq_rel {T files} {x x' : R} {k k' : St → R}
   intro r2 r2' ho2 hs2
   exact ⟨by rw [ho, ho2], hs2⟩
 
-theorem simL {T files} (hload : LoadOK T files) {J J' : RJ} (hJ : JRel T files J J') :
-    ∀ {z raw prep}, PrepL T files z raw prep → ∀ rng s s', (z = false → rng = .full) → StRel T files s s' →
-      RRel T files (renderL .runtime files J rng raw s) (renderL .inlineM files J' rng prep s') := by
+theorem Coup.tail {z rR rI n r} (h : Coup z rR rI (n :: r)) : Coup z rR rI r := by
+  rcases h with h | ⟨hz, ht⟩
+  · exact .inl h
+  · simp only [textualL, Bool.and_eq_true] at ht
+    exact .inr ⟨hz, ht.2⟩
+
+theorem Coup.head_textual {z rR rI n r} (h : Coup z rR rI (n :: r)) (hn : textualN n = false) :
+    rR = rI ∧ rR.nomt = false ∧ (z = false → rR = .full) := by
+  rcases h with h | ⟨_, ht⟩
+  · exact h
+  · simp [textualL, hn] at ht
+
+theorem Coup.sub {z rR rI n r b} (h : Coup z rR rI (n :: r)) (hb : textualN n = true → textualL b = true) :
+    Coup z rR rI b := by
+  rcases h with h | ⟨hz, ht⟩
+  · exact .inl h
+  · simp only [textualL, Bool.and_eq_true] at ht
+    exact .inr ⟨hz, hb ht.1⟩
+
+theorem Rng.fresh_of_nomt {r : Rng} (h : r.nomt = false) : r.fresh = .full := by
+  simp [Rng.fresh, Rng.full, h]
+
+theorem Coup.fresh {z rR rI n r fb} (h : Coup z rR rI (n :: r)) (hb : textualN n = true → textualL fb = true) :
+    Coup false rR.fresh rI.fresh fb := by
+  rcases h with ⟨he, hn, _⟩ | ⟨_, ht⟩
+  · subst he
+    rw [Rng.fresh_of_nomt hn]; exact .full
+  · simp only [textualL, Bool.and_eq_true] at ht
+    exact .inr ⟨rfl, hb ht.1⟩
+
+theorem simL {T files} (hload : LoadOK T files) (htx : TextOK files) {J J' : RJ} (hJ : JRel T files J J') :
+    ∀ {z raw prep}, PrepL T files z raw prep → ∀ rR rI s s', Coup z rR rI raw → StRel T files s s' →
+      RRel T files (renderL .runtime files J rR raw s) (renderL .inlineM files J' rI prep s') := by
   intro z raw prep hp
   induction hp with
-  | nil => intro rng s s' _ h; exact ⟨rfl, h⟩
+  | nil => intro rR rI s s' _ h; exact ⟨rfl, h⟩
   | text _ ih =>
-    intro rng s s' hz h
+    intro rR rI s s' hc h
     rw [renderL_cons, renderL_cons]
-    exact seq_rel (by rw [renderN_text, renderN_text]; exact ⟨rfl, h⟩) (fun s1 s1' h1 => ih rng s1 s1' hz h1)
+    exact seq_rel (by rw [renderN_text, renderN_text]; exact ⟨rfl, h⟩) (fun s1 s1' h1 => ih rR rI s1 s1' hc.tail h1)
   | @var z x r r' _ ih =>
-    intro rng s s' hz h
+    intro rR rI s s' hc h
     rw [renderL_cons, renderL_cons]
-    refine seq_rel ?_ (fun s1 s1' h1 => ih rng s1 s1' hz h1)
+    refine seq_rel ?_ (fun s1 s1' h1 => ih rR rI s1 s1' hc.tail h1)
     rw [renderN_var, renderN_var, ← h.lookup]
     cases s.lookup x with
     | none => exact rfl
@@ -337,78 +405,80 @@ theorem simL {T files} (hload : LoadOK T files) {J J' : RJ} (hJ : JRel T files J
       | none => exact rfl
       | some t => exact ⟨rfl, h⟩
   | @call m r r' _ ih =>
-    intro rng s s' hz h
+    intro rR rI s s' hc h
     rw [renderL_cons, renderL_cons]
-    refine seq_rel ?_ (fun s1 s1' h1 => ih rng s1 s1' hz h1)
+    refine seq_rel ?_ (fun s1 s1' h1 => ih rR rI s1 s1' hc.tail h1)
+    obtain ⟨he, hn, hf⟩ := hc.head_textual (by simp [textualN])
+    subst he
     rw [renderN_call, renderN_call]
     rcases lookup_rel h.macros m with ⟨h1, h2⟩ | ⟨b, b', h1, h2, hb⟩
     · rw [h1, h2, ← h.lookup]
       cases s.lookup m <;> rfl
     · rw [h1, h2]
-      exact hJ false rng b b' s s' hb hz h
+      exact hJ false rR rR b b' s s' hb (.inl ⟨rfl, hn, hf⟩) h
   | @elem z t b b' r r' _ _ ihb ih =>
-    intro rng s s' hz h
+    intro rR rI s s' hc h
     rw [renderL_cons, renderL_cons]
-    refine seq_rel ?_ (fun s1 s1' h1 => ih rng s1 s1' hz h1)
+    refine seq_rel ?_ (fun s1 s1' h1 => ih rR rI s1 s1' hc.tail h1)
+    obtain ⟨he, hn, hf⟩ := hc.head_textual (by simp [textualN])
+    subst he
     rw [renderN_elem, renderN_elem]
-    rcases firstMatchFrom_rel (rng := rng) (tag := t) h.mts 0 with ⟨h1, h2⟩ | ⟨idx, mb, mb', h1, h2, hT, hmb⟩
+    rcases firstMatchFrom_rel (rng := rR) (tag := t) h.mts 0 with ⟨h1, h2⟩ | ⟨idx, mb, mb', h1, h2, hT, hmb⟩
     · simp only [firstMatch, h1, h2]
       apply RRel.bind
-      · apply ihb rng s s' _ h
-        intro hzz
-        apply hz
+      · apply ihb rR rR s s' _ h
+        refine .inl ⟨rfl, hn, fun hzz => hf ?_⟩
         cases z <;> simp_all
       · intro r1 r1' ho hs
         exact ⟨by rw [ho], hs⟩
     · simp only [firstMatch, h1, h2]
       apply RRel.bind
-      · apply ihb _ s s' _ h
-        intro hzz
-        simp [hT] at hzz
+      · apply ihb _ _ s s' _ h
+        exact .inl ⟨rfl, rfl, fun hzz => by simp [hT] at hzz⟩
       · intro r1 r1' _ hs
-        exact hJ true _ mb mb' _ _ hmb (by simp) hs
+        exact hJ true _ _ mb mb' _ _ hmb (.inl ⟨rfl, rfl, fun hzz => by cases hzz⟩) hs
   | @cond z c b b' r r' _ _ ihb ih =>
-    intro rng s s' hz h
+    intro rR rI s s' hc h
     rw [renderL_cons, renderL_cons]
-    refine seq_rel ?_ (fun s1 s1' h1 => ih rng s1 s1' hz h1)
+    refine seq_rel ?_ (fun s1 s1' h1 => ih rR rI s1 s1' hc.tail h1)
     rw [renderN_cond, renderN_cond, ← evalCond_rel h]
     cases evalCond s c with
     | fuel => trivial
     | err e => rfl
     | ok bb =>
       cases bb with
-      | true => exact ihb rng s s' hz h
+      | true => exact ihb rR rI s s' (hc.sub (by simp [textualN])) h
       | false => exact ⟨rfl, h⟩
   | @loop z x xs b b' r r' _ _ ihb ih =>
-    intro rng s s' hz h
+    intro rR rI s s' hc h
     rw [renderL_cons, renderL_cons]
-    refine seq_rel ?_ (fun s1 s1' h1 => ih rng s1 s1' hz h1)
+    refine seq_rel ?_ (fun s1 s1' h1 => ih rR rI s1 s1' hc.tail h1)
     rw [renderN_loop, renderN_loop, ← h.lookup]
     cases s.lookup xs with
     | none => rfl
-    | some v => exact loopItems_rel x (fun s1 s1' h1 => ihb rng s1 s1' hz h1) _ s s' h
+    | some v => exact loopItems_rel x (fun s1 s1' h1 => ihb rR rI s1 s1' (hc.sub (by simp [textualN])) h1) _ s s' h
   | @defn z m b b' r r' hb _ _ ih =>
-    intro rng s s' hz h
+    intro rR rI s s' hc h
     rw [renderL_cons, renderL_cons]
-    refine seq_rel ?_ (fun s1 s1' h1 => ih rng s1 s1' hz h1)
+    refine seq_rel ?_ (fun s1 s1' h1 => ih rR rI s1 s1' hc.tail h1)
     rw [renderN_defn, renderN_defn]
     exact ⟨rfl, { h with macros := .cons ⟨rfl, hb⟩ h.macros }⟩
   | @matchT z t b b' r r' hT hb _ _ ih =>
-    intro rng s s' hz h
+    intro rR rI s s' hc h
     rw [renderL_cons, renderL_cons]
-    refine seq_rel ?_ (fun s1 s1' h1 => ih rng s1 s1' hz h1)
+    refine seq_rel ?_ (fun s1 s1' h1 => ih rR rI s1 s1' hc.tail h1)
     rw [renderN_matchT, renderN_matchT]
     exact ⟨rfl, { h with mts := h.mts.snoc ⟨rfl, hT, hb⟩ }⟩
   | @inlined z b b' r r' hb _ _ ih =>
-    intro rng s s' hz h
+    intro rR rI s s' hc h
     rw [renderL_cons, renderL_cons]
-    refine seq_rel ?_ (fun s1 s1' h1 => ih rng s1 s1' hz h1)
+    refine seq_rel ?_ (fun s1 s1' h1 => ih rR rI s1 s1' hc.tail h1)
     rw [renderN_inlined, renderN_inlined]
-    exact hJ z rng b b' s s' hb hz h
+    exact hJ z rR rI b b' s s' hb (hc.sub (by simp [textualN])) h
   | @keep z hr c hf fb fb' p r r' _ _ ihfb ih =>
-    intro rng s s' hz h
+    intro rR rI s s' hc h
     rw [renderL_cons, renderL_cons]
-    refine seq_rel ?_ (fun s1 s1' h1 => ih rng s1 s1' hz h1)
+    refine seq_rel ?_ (fun s1 s1' h1 => ih rR rI s1 s1' hc.tail h1)
     rw [renderN_include, renderN_include, ← evalHref_rel h]
     cases evalHref s hr with
     | fuel => trivial
@@ -428,7 +498,7 @@ theorem simL {T files} (hload : LoadOK T files) {J J' : RJ} (hJ : JRel T files J
           cases e with
           | notFound =>
             cases hf with
-            | true => exact ihfb .full s s' (fun _ => rfl) h
+            | true => exact ihfb _ _ s s' (hc.fresh (by simp [textualN])) h
             | false => rfl
           | syntaxErr => rfl
           | undefined => rfl
@@ -437,24 +507,34 @@ theorem simL {T files} (hload : LoadOK T files) {J J' : RJ} (hJ : JRel T files J
           simp only [hraw] at hl
           obtain ⟨body', c', hli, hpb, hc'⟩ := hl
           simp only [hli, Res.map_ok]
-          exact hJ false .full body body' _ _ hpb (fun _ => rfl) { h with cache := hc' }
+          refine hJ false _ _ body body' _ _ hpb (Coup.ofKind (loadRaw_text htx hraw) ?_) { h with cache := hc' }
+          intro hk; subst hk; rfl
   | @inlineFound hh c hf fb p name body body' r r' hres hfind hb _ _ ih =>
-    intro rng s s' hz h
+    intro rR rI s s' hc h
     rw [renderL_cons, renderL_cons]
-    refine seq_rel ?_ (fun s1 s1' h1 => ih rng s1 s1' hz h1)
+    refine seq_rel ?_ (fun s1 s1' h1 => ih rR rI s1 s1' hc.tail h1)
     rw [renderN_include, renderN_inlined]
     simp only [evalHref, Res.bind_ok, hres, loadT, loadRaw, hfind,
       ne_eq, not_true_eq_false, Res.map_ok]
-    rw [hz rfl]
-    exact hJ false .full body body' s s' hb (fun _ => rfl) h
+    refine hJ false _ _ body body' s s' hb (Coup.ofKind ?_ ?_) h
+    · intro hk; subst hk; exact htx name body hfind
+    · intro hk
+      subst hk
+      rcases hc with ⟨he, _, hfull⟩ | ⟨_, ht⟩
+      · rw [← he]; exact hfull rfl
+      · simp [textualL, textualN] at ht
   | @inlineMissing hh c fb fb' p name r r' hres hfind _ _ ihfb ih =>
-    intro rng s s' hz h
+    intro rR rI s s' hc h
     rw [renderL_cons, renderL_append]
-    refine seq_rel ?_ (fun s1 s1' h1 => ih rng s1 s1' hz h1)
+    refine seq_rel ?_ (fun s1 s1' h1 => ih rR rI s1 s1' hc.tail h1)
     rw [renderN_include]
     simp only [evalHref, Res.bind_ok, hres, loadT, loadRaw, hfind,
       Res.map_err, if_true]
-    rw [hz rfl]
-    exact ihfb .full s s' (fun _ => rfl) h
+    refine ihfb _ _ s s' ?_ h
+    rcases hc with ⟨he, hn, hfull⟩ | ⟨_, ht⟩
+    · subst he
+      rw [Rng.fresh_of_nomt hn, hfull rfl]; exact .full
+    · simp only [textualL, textualN, Bool.and_eq_true] at ht
+      exact .inr ⟨rfl, ht.1.2⟩
 
 end Genshi.Incl
